@@ -562,6 +562,12 @@ func (c *Chain) updateState(ctx context.Context,
 		}
 	}
 
+	// validate what the transaction queued (transfers out of the sender within value
+	// plus fee, signed transfers correctly signed) before any of it is applied
+	if err = sctx.Validate(); err != nil {
+		return nil, err
+	}
+
 	ue := make(map[string]*event.User)
 	for _, transfer := range sctx.GetTransfers() {
 		tEvents, err := c.transferAmountWithAssert(sctx, transfer.ClientID, transfer.ToClientID, transfer.Amount)
